@@ -115,6 +115,42 @@ theorem c17_k_bound_tight :
   rw [dotZ_replicate, dotZ_replicate]
   decide
 
+/-- **C17.G1** Vector-matrix (`gemv`) path, kernels that cannot saturate: for every K-tile size that
+is routed through the dot-product instruction (`tile`: 4, one SIMD vector, or 0 = scalar), every
+chunk size `kc > 0`, all values and zero points, the accumulated chunk results equal
+`Σ_k (a_k − za)(b_k − zb)`. -/
+theorem c17_gemv_entry_exact (tile kc : Nat) (hkc : 0 < kc) (za zb : Int) (a b : List Int)
+    (h : a.length = b.length) : entryGemv false tile kc za zb a b = dotZ za zb a b :=
+  entryGemvBlocks_false_eq_dotZ tile kc hkc za zb a.length a b h (Nat.le_refl _)
+
+/-- **C17.G2** gemv on the saturating (`vpmaddubsw`) kernels is exact in the documented reduced
+ranges (RHS in `[−64,63]`, or LHS in `[0,127]`), whatever mix of SIMD and scalar steps is used. -/
+theorem c17_gemv_saturating_exact_reduced (tile kc : Nat) (hkc : 0 < kc) (za zb : Int)
+    (a b : List Int) (h : a.length = b.length)
+    (hr : (AllIn 0 255 a ∧ AllIn (-64) 63 b) ∨ (AllIn 0 127 a ∧ AllIn (-128) 127 b)) :
+    entryGemv true tile kc za zb a b = dotZ za zb a b := by
+  unfold entryGemv
+  rcases hr with ⟨ha, hb⟩ | ⟨ha, hb⟩
+  · rw [entryGemvBlocks_sat_eq 255 (-64) 63 (by omega) (by omega) (by omega) (by omega) (by omega)
+      tile kc za zb a.length a b ha hb]
+    exact c17_gemv_entry_exact tile kc hkc za zb a b h
+  · rw [entryGemvBlocks_sat_eq 127 (-128) 127 (by omega) (by omega) (by omega) (by omega) (by omega)
+      tile kc za zb a.length a b ha hb]
+    exact c17_gemv_entry_exact tile kc hkc za zb a b h
+
+/-- **C17.G3** Outside the reduced range the gemv path of a saturating kernel is *not* exact, and
+which elements saturate depends on the path: with K = 6 and all products `255·127`, the column-wise
+SIMD path (`tile = 4`) saturates the first four elements only (the K tail is scalar), the scalar
+columns (`tile = 0`) are exact.  (The harness compares exactly these values on AVX2 and on
+AVX-512 without VNNI.) -/
+theorem c17_gemv_saturation_witness :
+    entryGemv true 4 8 0 0 [255, 255, 255, 255, 255, 255] [127, 127, 127, 127, 127, 127] =
+      32767 + 32767 + 2 * (255 * 127) ∧
+    entryGemv true 0 8 0 0 [255, 255, 255, 255, 255, 255] [127, 127, 127, 127, 127, 127] =
+      6 * (255 * 127) ∧
+    gemvTile .unitColStride 32 128 40 31 = 4 ∧ gemvTile .unitColStride 32 128 40 32 = 0 ∧
+    gemvTile .unitRowStride 64 128 40 39 = 64 ∧ gemvTile .general 32 128 40 0 = 0 := by decide
+
 /-! ### Whole-matrix statement -/
 
 theorem colOf_length (n : Nat) : ∀ (k : Nat) (b : List Int) (j : Nat), (colOf n k b j).length = k
@@ -140,7 +176,7 @@ theorem getD_allIn (lo hi : Int) (h0 : lo ≤ 0 ∧ 0 ≤ hi) (b : List Int) (hb
   | some v => simpa using hb v (List.mem_of_getElem? h)
 
 /-- **C17.T1c** Every output element the model computes for a SIMD kernel that cannot saturate,
-on a well-formed request, equals `wrap32 (Σ_k (a_ik − za_i)(b_kj − zb_j) + c0_ij)` — whether or
+on a well-formed request (packed GEMM path or gemv path), equals `wrap32 (Σ_k (a_ik − za_i)(b_kj − zb_j) + c0_ij)` — whether or
 not A and/or B are prepacked (`r.preA`, `r.preB` are unconstrained).  Before the fix of
 `findings/C17.json` (`C17-prepacked-*-zero-points-ignored`) this needed the extra hypothesis
 "nothing is prepacked": see `c17_prepacked_zero_points_were_ignored`. -/
@@ -155,8 +191,13 @@ theorem c17_gemm_entry_exact (r : Request) (i j : Nat)
     rw [rowOf_length r.k r.a i hi, colOf_length]
   unfold entry
   simp only [hk, hsat, effZero_eq]
-  rw [c17_simd_entry_exact r.kc hkc _ _ _ _ hlen]
-  cases r.c0 <;> simp
+  cases r.gemv
+  · simp only [Bool.false_eq_true, if_false]
+    rw [c17_simd_entry_exact r.kc hkc _ _ _ _ hlen]
+    cases r.c0 <;> simp
+  · simp only [if_true]
+    rw [c17_gemv_entry_exact _ r.kc hkc _ _ _ _ hlen]
+    cases r.c0 <;> simp
 
 /-- Same statement for the saturating kernels under the documented reduced RHS range. -/
 theorem c17_gemm_entry_exact_saturating (r : Request) (i j : Nat)
@@ -182,15 +223,21 @@ theorem c17_gemm_entry_exact_saturating (r : Request) (i j : Nat)
       · exact ih (b.drop r.n) (hb.drop _) x hx
   unfold entry
   simp only [hk, effZero_eq]
-  cases hs : r.sat
+  cases hs : r.sat <;> cases r.gemv <;> simp only [Bool.false_eq_true, if_false, if_true]
   · rw [c17_simd_entry_exact r.kc hkc _ _ _ _ hlen]
     cases r.c0 <;> simp
+  · rw [c17_gemv_entry_exact _ r.kc hkc _ _ _ _ hlen]
+    cases r.c0 <;> simp
   · rw [c17_saturating_exact_reduced_b r.kc hkc _ _ _ _ hlen hrow (hcol r.k r.b hb)]
+    cases r.c0 <;> simp
+  · rw [c17_gemv_saturating_exact_reduced _ r.kc hkc _ _ _ _ hlen
+      (Or.inl ⟨hrow, hcol r.k r.b hb⟩)]
     cases r.c0 <;> simp
 
 /-- A 2×2, K=5 request with per-row/per-column zero points (non-vacuity witness). -/
 def exampleRequest : Request :=
-  { kern := .simd, sat := false, kc := 1024, preA := false, preB := false, m := 2, n := 2, k := 5,
+  { kern := .simd, sat := false, kc := 1024, gemv := false, bKind := .unitColStride, lanes := 32,
+    cb := 128, preA := false, preB := false, m := 2, n := 2, k := 5,
     za := some [3, 250], zb := some [-128, 127], c0 := none,
     a := [255, 0, 1, 254, 128, 0, 255, 127, 2, 200],
     b := [-128, 127, 0, -1, 1, 64, -65, 63, -64, 5] }
@@ -202,7 +249,8 @@ example : exampleRequest.kern = .simd ∧ exampleRequest.sat = false ∧ 0 < exa
 
 /-- Request with B prepacked and a non-zero B zero point. -/
 def prepackedRequest : Request :=
-  { kern := .simd, sat := false, kc := 1024, preA := false, preB := true, m := 1, n := 1, k := 1,
+  { kern := .simd, sat := false, kc := 1024, gemv := false, bKind := .unitColStride, lanes := 32,
+    cb := 128, preA := false, preB := true, m := 1, n := 1, k := 1,
     za := some [0], zb := some [47], c0 := none, a := [127], b := [0] }
 
 /-- **Finding (fixed, `findings/C17.json`: `C17-prepacked-*-zero-points-ignored`)** Before the
